@@ -90,7 +90,7 @@ func history(g *gen.G, d int) (*ref.Tree, int) {
 }
 
 var InsMutations = []string{"valid", "valid", "valid", "valid", "wrongpost", "corrupt", "occupied", "stale", "hash+1", "hash-other-batch", "pastend",
-	"short-ids", "long-ids", "short-proofs", "ragged", "deep-proof", "edge-ids", "hash+r", "root+r"}
+	"short-ids", "long-ids", "short-proofs", "ragged", "deep-proof", "edge-ids", "hash+r", "root+r", "fill-to-end", "fill-to-end"}
 
 // Insertion returns a parameter set for a (d, b) system, its mutation class, and whether the
 // generator believes it valid (the oracle is the Lean model, not this flag).
@@ -109,6 +109,14 @@ func Insertion(g *gen.G, d, b int) (*prover.InsertionParameters, string) {
 		}
 	case "pastend":
 		start = size - uint64(g.Intn(b+1))
+	case "fill-to-end":
+		// a valid batch that ends exactly at the last leaf of the tree
+		if uint64(b) <= size {
+			start = size - uint64(b)
+			for i := start; i < size; i++ {
+				tree.Set(i, big.NewInt(0))
+			}
+		}
 	}
 	p := &prover.InsertionParameters{StartIndex: uint32(start)}
 	p.PreRoot = *tree.Root()
